@@ -182,6 +182,20 @@ pub fn run(ctx: &Ctx) -> Report {
                     acc.sample(case.brief());
                 }
                 judge_guarded(judge, &case, &mut acc);
+                // the same with a zero-length chunk (two split points coinciding, a 0-byte read) pushed
+                // before every chunk and at the end
+                let mut e = case.clone();
+                let mut ops = Vec::with_capacity(e.text.len() * 2);
+                for o in &e.text {
+                    if o.starts_with("P:") {
+                        ops.push("P:".to_string());
+                    }
+                    ops.push(o.clone());
+                }
+                let last = ops.len() - 1;
+                ops.insert(last, "P:".to_string());
+                e.text = ops;
+                judge_guarded(judge, &e, &mut acc);
             }
             acc
         })
